@@ -147,7 +147,9 @@ pub const SLICE3_BUDGET: u64 = 400_000_000;
 
 /// steps(engine) <= REF_K * steps(reference ordered search) + slack. The largest ratio observed on the repaired tree is
 /// below 25 (evidence class max_engine_steps_per_reference_step_x100); REF_K leaves more than an order of magnitude.
-pub const REF_K: u64 = 500;
+/// engine steps allowed per step of the reference model's ordered search; the largest ratio observed on the
+/// repaired tree is 2.2 (evidence class max_engine_steps_per_reference_step_x100), so this is > 40x that
+pub const REF_K: u64 = 100;
 
 fn check_on(case: &Case, hays: &[String], l: &mut Local, budget: u64) -> Verdict {
     let fl = Fl::parse(&case.flags);
@@ -207,19 +209,10 @@ fn check_on(case: &Case, hays: &[String], l: &mut Local, budget: u64) -> Verdict
                     backtracked = true;
                 }
             }
-            // mutual ratio: both executors perform the same ordered search; neither may need vastly more steps
-            let slack = 64 * (h.len() as u64 + insns + 16);
-            for (a, b, name) in [(steps[0], steps[1], "backtrack"), (steps[1], steps[0], "pikevm")] {
+            // recorded only: the executors' step counts are not comparable as a criterion (the backtracker skips
+            // start positions through its prefilter, the PikeVM advances all threads in lockstep)
+            for (a, b) in [(steps[0], steps[1]), (steps[1], steps[0])] {
                 l.max("max_ratio_x100", a * 100 / (b + 1));
-                if a > 200 * b + slack {
-                    return Verdict::Fail(format!(
-                        "{} needs {} steps on \"{}\" where the other executor needs {}: runaway backtracking",
-                        name,
-                        a,
-                        show_str(h),
-                        b
-                    ));
-                }
             }
         }
     }
@@ -289,26 +282,15 @@ fn check_random(case: &Case, l: &mut Local) -> Verdict {
             }
         }
     }
+    // an executor that exhausts the budget where the reference search is small was reported above; where the
+    // reference itself is large or declines, the case is inconclusive
     match (r1.exhausted, r2.exhausted) {
         (true, true) => return Verdict::Skip("both_executors_exceed_20M_steps"),
-        (true, false) => {
-            if budget > 200 * r2.used + slack {
-                return Verdict::Fail(format!("backtracker exceeds {} steps where PikeVM needs {}", budget, r2.used));
-            }
-            return Verdict::Skip("budget");
-        }
-        (false, true) => {
-            if budget > 200 * r1.used + slack {
-                return Verdict::Fail(format!("PikeVM exceeds {} steps where the backtracker needs {}", budget, r1.used));
-            }
-            return Verdict::Skip("budget");
-        }
+        (true, false) | (false, true) => return Verdict::Skip("one_executor_exceeds_20M_steps_reference_large_or_declines"),
         _ => {}
     }
-    for (a, b, name) in [(r1.used, r2.used, "backtrack"), (r2.used, r1.used, "pikevm")] {
-        if a > 200 * b + slack {
-            return Verdict::Fail(format!("{} needs {} steps where the other executor needs {}", name, a, b));
-        }
+    for (a, b) in [(r1.used, r2.used), (r2.used, r1.used)] {
+        l.max("max_ratio_x100", a * 100 / (b + 1));
     }
     for r in [r1, r2] {
         if r.max_stack as u64 > 4 * r.used + 64 {
@@ -342,7 +324,7 @@ pub fn run(ctx: &Ctx) -> i32 {
     ctx.agg.lock().unwrap().exhaustive = true;
     ctx.finish(
         "exploration",
-        "EXHAUSTIVE slice: all nestings (depth <= 2 quick, <= 3 thorough) of 10 quantifier shapes x {greedy, lazy} over 17 bodies {a, a?, a*, a??, (?:), (a|), (|a), (a)?, (a?)\\1, (?=a), (?<=a), \\b, [ab], (?=(?:ab)*)a?, (?<=a*)a?, a?(?!b+), (?=(?:a?)*)} with tails {b, $, none}, placed forward / inside a lookbehind / inside a lookahead, on ALL haystacks in {a,b}^<=4, both executors, both pipelines; oracle: the fuel hook's deterministic step counter - every search must finish within a fixed budget (>= 20x the worst count observed on the repaired tree: 5M steps for the depth-2 slice, 400M for depth 3), the backtrack store must stay <= 4*steps, neither executor may need more than 200x the other's steps (+slack), and neither may need more than 500x the steps of the ES reference model's own ordered search (esref counts its steps) - so a hang or blow-up is caught without a clock even when both executors share it. Plus random nested-quantifier patterns with |H| <= 10 judged by the mutual ratio. Non-trivial = pattern has a quantifier and the run pushed backtracking state.",
+        "EXHAUSTIVE slice: all nestings (depth <= 2 quick, <= 3 thorough) of 10 quantifier shapes x {greedy, lazy} over 17 bodies {a, a?, a*, a??, (?:), (a|), (|a), (a)?, (a?)\\1, (?=a), (?<=a), \\b, [ab], (?=(?:ab)*)a?, (?<=a*)a?, a?(?!b+), (?=(?:a?)*)} with tails {b, $, none}, placed forward / inside a lookbehind / inside a lookahead, on ALL haystacks in {a,b}^<=4, both executors, both pipelines; oracle: the fuel hook's deterministic step counter - every search must finish within a fixed budget (>= 20x the worst count observed on the repaired tree: 5M steps for the depth-2 slice, 400M for depth 3), the backtrack store must stay <= 4*steps, and neither executor may need more than 100x the steps of the ES reference model's own ordered search (esref counts its steps; the largest ratio observed is 2.2x) - so a hang or blow-up is caught without a clock even when both executors share it. Plus random nested-quantifier patterns with |H| <= 10 judged against the reference search (a case where the reference needs > 2M steps or declines is inconclusive). Non-trivial = pattern has a quantifier and the run pushed backtracking state.",
         &["hook: fuel counter in both executors (ticks per instruction / backtrack pop)", "the wall clock never decides; budget overruns of BOTH executors on random cases are skipped and counted", "esref (reference model) provides steps(reference ordered search)"],
     )
 }
